@@ -4,6 +4,10 @@ _COMMON = [
 ]
 SPEC = dict(
     harness=['h_seq.c'],
+    # second configuration: counts/capacities near the top of the index type against a ledger allocator (harness/h_huge.c)
+    configs=lambda tier: [dict(name='default'), dict(name='huge', harness=['h_huge.c'], hflags=['-DVF_HUGE=4'])],
+    parallel_configs=2,
+    workers={'quick': 16, 'thorough': 32},
     level='exploration',
     memcheck_cases={'thorough': 1600},
     rule='SMALL case class: seeded histories of 30-80 operations on two vectors or two fixed buffers (element sizes 0,1,2,3,4,7,8,12,16,24,33; buffer capacities 0..40; half of the containers live in caller-provided storage via ctor/dtor instead of new/die): '
@@ -34,7 +38,7 @@ SPEC = dict(
          'distinct_nontrivial = distinct (container kind, operation, element-size class, index class(es), capacity state) combinations judged, plus for the large class '
          '(kind, operation, element-size class, floor(log2 count), operation class).',
     exhaustive={},
-    require=['state-compared-with-model', 'returned-pointer-inside-owned-storage', 'removed-element-intact-and-past-live-range',
+    require=['huge-vec-setm', 'huge-vec-setn', 'huge-buf-new', 'huge-buf-setm', 'state-compared-with-model', 'returned-pointer-inside-owned-storage', 'removed-element-intact-and-past-live-range',
              'buf-refuses-when-full', 'remove-path-full', 'remove-path-spare', 'sort_fore-path-full', 'sort_fore-path-spare',
              'sort_back-path-full', 'sort_back-path-spare', 'push_sort', 'sorted-insert-keeps-order-and-elements', 'sort-sorted-permutation',
              'search-finds-iff-present', 'erase-out-of-range-reports-obounds', 'erase-destroys-each-erased-element-once', 'setz-rederives-capacity',
